@@ -422,6 +422,9 @@ def kinds(A):
         if v["container"] == "queue":
             aks |= set(v["kinds"])
     if len(aks) != 1:
+        # kinds that an event queues as well are not the abort kind (if the abort entry queues those too, the abort rules say so)
+        aks = aks - {sk, fk, ck}
+    if len(aks) != 1:
         raise Imprecision("cannot identify the abort signal (%r)" % aks)
     K["abort"] = list(aks)[0]
     # ready: the kind whose handler enters the Ready class
